@@ -37,7 +37,28 @@ theorem rem_bounds (a b : Int) (ha : 0 ≤ a) (hb : 0 < b) : 0 ≤ rem a b ∧ r
   rw [rem_nonneg ha]
   exact ⟨Int.emod_nonneg _ (by omega), Int.emod_lt_of_pos _ hb⟩
 
+/-- saturation to the int64 range (what `time.Time.Sub`, `time.Until`, `time.Since` do) -/
+def sat (x : Int) : Int := if x < -(2^63) then -(2^63) else if x ≥ 2^63 then 2^63 - 1 else x
+
+theorem sat_id {x : Int} (h1 : -(2^63) ≤ x) (h2 : x < 2^63) : sat x = x := by
+  unfold sat; split
+  · omega
+  · split <;> omega
+theorem sat_bounds (x : Int) : -(2^63) ≤ sat x ∧ sat x < 2^63 := by
+  unfold sat; split
+  · omega
+  · split <;> omega
+theorem sat_mono {x y : Int} (h : x ≤ y) : sat x ≤ sat y := by
+  unfold sat; repeat' split
+  all_goals omega
+
 end I64
+
+/-! Instants (`time.Time`) as unbounded integers of nanoseconds since the Unix epoch: `Add` is exact, `Sub` saturates. -/
+namespace T
+def add (t d : Int) : Int := t + d
+def sub (a b : Int) : Int := I64.sat (a - b)
+end T
 
 namespace U64
 def wrap (x : Int) : Int := x % 2^64
